@@ -1,5 +1,20 @@
-/- C12 — PutResult tells the truth (initial: RawLRU) -/
+/-
+  C12 — PutResult tells the truth about what a put did.
+
+  `PutTruth ret ret' k v r` (Lemmas/PutTruth.lean) is the claim a `PutResult` makes about the retained entries before
+  and after: `Put` — key not retained, nothing left; `Update old` — key retained with `old`, only its entry changed;
+  `Evicted ek ev` — key not retained, exactly `(ek, ev)` left; `EvictedAndUpdate` — both.
+  Retained = resident ∪ ghost (2Q, ARC). The theorems hold for every well-formed state, hence (C01/C05 reachability)
+  after every history. ARC never reports an eviction; what may leave silently is characterised in `arc_put_truth`.
+-/
 import Caches.Lemmas.RawLru
+import Caches.Lemmas.PutTruth
+import Caches.Lemmas.ArcTruth
+import Caches.Lemmas.CohWt
+import Caches.Lemmas.CohTwoQ
+import Caches.Lemmas.CohArc
+set_option linter.unusedSectionVars false
+set_option linter.unusedVariables false
 namespace C12
 open M M.RawLru
 variable {κ ν : Type} [DecidableEq κ]
@@ -50,4 +65,72 @@ theorem peq_iff_eq [DecidableEq ν] (a b : PutResult κ ν) :
   cases a <;> cases b <;> simp [peq] <;> grind
 
 theorem pclone_eq (a : PutResult κ ν) : pclone id id a = a := by cases a <;> rfl
+/-! ## the claim of the result against the retained entries, every cache -/
+
+/-- RawLRU (capacity ≥ 1): the result is true of the list before and after -/
+theorem rawlru_put_claim (c : RawLru κ ν) (k : κ) (v : ν) (h : c.Inv) (h0 : c.cap ≠ 0) :
+    ∃ c' r e, c.put k v = .ok (c', r, e) ∧ PutTruth c.items c'.items k v r ∧ c'.peek k = some v := by
+  obtain ⟨er, ab, sp, lk, fm, un, nil⟩ := facts2 k c.items h.nd
+  rcases rawlru_put_truth c k v h with ⟨old, hf, e, hp⟩ | ⟨hf, hc, _⟩ | ⟨hf, hroom, e, hp⟩ | ⟨hf, _, lru, e, hl, hne, hp⟩
+  · refine ⟨_, _, _, hp, ?_, by simp [RawLru.peek, find]⟩
+    truth_leaf
+  · exact absurd hc h0
+  · refine ⟨_, _, _, hp, ?_, by simp [RawLru.peek, find]⟩
+    truth_leaf
+  · refine ⟨_, _, _, hp, ?_, by simp [RawLru.peek, find]⟩
+    have hce : (lru.1, lru.2) = lru := rfl
+    truth_leaf
+
+/-- SegmentedCache -/
+theorem slru_put_claim (s : Slru κ ν) (k : κ) (v : ν) (h : s.Inv) :
+    ∃ r s' d, s.put k v = .ok (r, s', d) ∧ PutTruth s.ents s'.ents k v r ∧ (k, v) ∈ s'.ents := by
+  obtain ⟨r, s', d, hp, heq⟩ := C07.put_eq_spec s k v h
+  have ht := SlruSpec.put_truth _ _ _ _ k v h.ndp h.ndq h.disj _ _ _ heq.symm
+  refine ⟨r, s', d, hp, ht, ?_⟩
+  unfold Slru.ents at ht ⊢
+  cases r <;> (simp only [PutTruth] at ht; grind only)
+
+/-- TwoQueueCache: retained = recent ++ frequent ++ ghost; an entry pushed out of the ghost list is the one reported;
+    the key ends up resident (recent or frequent), never left as a ghost -/
+theorem twoq_put_claim (q : TwoQ κ ν) (k : κ) (v : ν) (h : q.Inv) :
+    ∃ r q' d, q.put k v = .ok (r, q', d) ∧
+      PutTruth (q.recent.items ++ (q.frequent.items ++ q.ghost.items))
+               (q'.recent.items ++ (q'.frequent.items ++ q'.ghost.items)) k v r ∧ (k, v) ∈ q'.ents := by
+  obtain ⟨r, q', d, hp, heq⟩ := C08.put_eq_spec q k v h
+  have ht := TwoQSpec.put_truth _ _ _ _ _ _ k v h.ndr h.ndf h.ndg h.drf h.drg h.dfg h.gpos h.spos _ _ _ _ heq.symm
+  exact ⟨r, q', d, hp, ht.1, ht.2⟩
+
+/-- WTinyLFUCache: retained = window ++ probationary ++ protected; a candidate rejected by the admission gate is
+    reported as `Evicted` -/
+theorem wtinylfu_put_claim (c : WTinyLfu κ ν) (kh : κ → UInt64) (k : κ) (v : ν) (h : c.Inv) :
+    ∃ r c' d, c.put kh k v = .ok (r, c', d) ∧ PutTruth c.ents c'.ents k v r ∧ (k, v) ∈ c'.ents := by
+  obtain ⟨r, c', d, hp, heq, _⟩ := C10.put_eq_spec c kh k v h
+  have dwp : ∀ x, x ∈ keys c.window.items → x ∉ keys c.main.prob.items := fun x hx hc => h.dw x hx (Or.inl hc)
+  have dwq : ∀ x, x ∈ keys c.window.items → x ∉ keys c.main.prot.items := fun x hx hc => h.dw x hx (Or.inr hc)
+  have ht := WtSpec.put_truth (C10.view c) _ _ _ _ k v h.wnd h.mi.ndp h.mi.ndq h.mi.disj dwp dwq _ _ heq.symm
+  refine ⟨r, c', d, hp, ht, ?_⟩
+  have ht' : PutTruth c.ents c'.ents k v r := ht
+  cases r <;> (simp only [PutTruth] at ht'; grind only)
+
+/-- AdaptiveCache: `put` reports `Put` exactly for a key retained nowhere and `Update old` exactly for a key retained
+    (resident or ghost) with value `old`; nothing appears from nowhere; the key ends up resident; and the only entries
+    that leave without being named are ghost-list entries — residents other than the least-recent of T1/T2 stay resident -/
+theorem arc_put_claim (a : Arc κ ν) (k : κ) (v : ν) (h : a.Inv) :
+    ∃ r a' d, a.put k v = .ok (r, a', d) ∧ ArcSpec.ArcTruth (C09.view a) (C09.view a') k v r := by
+  obtain ⟨r, a', d, hp, heq⟩ := C09.put_eq_spec a k v h
+  have ht := ArcSpec.put_truth (C09.view a) a.size k v h.nd1 h.nd2 h.ndb1 h.ndb2 h.d12 h.d1b1 h.d1b2 h.d2b1 h.d2b2 h.db
+  rw [← heq] at ht
+  exact ⟨r, a', d, hp, ht⟩
+
+/-- ARC never reports an eviction -/
+theorem arc_never_evicted (a : Arc κ ν) (k : κ) (v : ν) (h : a.Inv) (r : PutResult κ ν) (a' : Arc κ ν) (d : List (Obj κ ν))
+    (hp : a.put k v = .ok (r, a', d)) : r = .put ∨ ∃ old, r = .update old := by
+  obtain ⟨r0, a0, d0, hp0, ht⟩ := arc_put_claim a k v h
+  rw [hp] at hp0; injection hp0 with hp0; injection hp0 with hr _; subst hr
+  rcases ht.result with ⟨h1, _⟩ | ⟨old, h1, _⟩
+  · exact Or.inl h1
+  · exact Or.inr ⟨old, h1⟩
+
+/-- non-vacuity: a full 2Q whose ghost list overflows reports the ghost that was pushed out -/
+example : (TwoQSpec.put [(3, 30)] [(2, 20)] [(1, 10)] 2 1 1 4 (40 : Nat)).2.2.2 = PutResult.evicted 1 10 := by decide
 end C12
